@@ -12,6 +12,7 @@ LEVEL_TEXT = ("Forward.tla transcribes forward.Manager (Initialize / Start / Sto
 LEVEL_NOTE = ("destination lists of length <= 3 over 3 destinations (two protocols, one differing only in a parameter); Start/Stop "
               "strictly alternate as in core/path.go; 'runs' is read from the handler's done channel, identity from the API ids "
               "(in-package); destinations that merely move position are left open by the statement and by the formulas")
+TECHNIQUE = "TLA+ model (TLC): exhaustive bounded MC + edge-covering walks of the state graph replayed on the real forward.Manager + trace validation"
 
 CFG = """SPECIFICATION %s
 CONSTANTS
